@@ -24,7 +24,12 @@ Close Scope string_scope.
       running the client model against the server model over a faithful channel either completes on both
       sides - with the same version, suite, master-secret term, exported-keying-material term, key-block
       term, and each side reporting the other's certificates - or fails on both sides; it completes exactly
-      when policy_allows.  No run blocks, none completes on one side only.  When it completes, a second and a
+      when policy_allows.  No run blocks, none completes on one side only.  Each side derives master secret,
+      exporter and key block from its OWN hello random and the one it RECEIVED in the peer's hello (the randoms
+      travel in GClientHello / GServerHello), so the equality of the terms is a consequence of the exchange.
+      Limits of this theorem (see docs/asbuilt/C06.md): the endpoint models have no panic outcome - "rather
+      than crashing" is only checked on the real code; that they follow the Go control flow is tied by the
+      differential run; the callbacks dimension only matters through server_certs (three of its six cells).  When it completes, a second and a
       third connection from the same client session cache (connection model of Resume/ResumeModel.v) complete
       with the same version, suite and peer identities - with tickets on as resumptions carrying the first
       connection's master secret, with tickets off as full handshakes (reconnect_ok).  The negotiated suite is
@@ -58,19 +63,20 @@ Theorem C06_suite_preference :
 Proof. intros a s. unfold expected_suite. apply find_first. Qed.
 Print Assumptions C06_suite_preference.
 
-(* 2. Key block: for every suite row of the two generated tables (indeed for all lengths) the PRF output is
-   cut as clientMAC | serverMAC | clientKey | serverKey | clientIV | serverIV with the row's lengths ... *)
+(* 2. Key block: for ALL lengths macLen, keyLen, ivLen - in particular those of every row of the two generated
+   suite tables, which is all keysFromMasterSecret is ever called with - the PRF output is cut as
+   clientMAC | serverMAC | clientKey | serverKey | clientIV | serverIV ... *)
 Theorem C06_key_block_layout :
-  forall row km, In row (gen_gmCipherSuites ++ gen_cipherSuites) ->
-    let m := N.to_nat (row_macLen row) in let k := N.to_nat (row_keyLen row) in let i := N.to_nat (row_ivLen row) in
+  forall km m k i,
     length km = 2 * m + 2 * k + 2 * i ->
     let '(cm, sm, ck, sk, ci, si) := key_slices km m k i in
     km = cm ++ sm ++ ck ++ sk ++ ci ++ si
     /\ length cm = m /\ length sm = m /\ length ck = k /\ length sk = k /\ length ci = i /\ length si = i.
-Proof. intros row km _ m k i H. exact (key_slices_layout km m k i H). Qed.
+Proof. exact key_slices_layout. Qed.
 Print Assumptions C06_key_block_layout.
 
-(* ... and the client writes with what the server reads with, and vice versa *)
+(* ... and the client writes with what the server reads with, and vice versa (immediate from the two
+   establishKeys models: it records that they were transcribed mirror-wise, nothing deeper) *)
 Theorem C06_keys_mirrored :
   forall s, ck_out (establishKeys_client s) = ck_in (establishKeys_server s)
             /\ ck_in (establishKeys_client s) = ck_out (establishKeys_server s).
